@@ -98,9 +98,9 @@ func c20Font(c *explore.Ctx) (*sfnt.Font, []string, string) {
 	for _, e := range []struct {
 		r rune
 		g glyph.ID
-	}{{'A', 1}, {'B', 2}, {0xFB01, 3}, {0xE000, 4}, {0x1F600, 2}, {'x', 4}} {
+	}{{'A', 1}, {'B', 2}, {0xFB01, 3}, {0xE000, 4}, {0x10000, 2}, {'x', 4}} {
 		on := false
-		if e.r == 0x1F600 || e.r == 'B' || e.r == 0xE000 {
+		if e.r == 0x10000 || e.r == 'B' || e.r == 0xE000 {
 			on = c.Deviate(2, fmt.Sprintf("map %U", e.r)) == 1
 		} else {
 			on = c.Bool(fmt.Sprintf("map %U", e.r))
@@ -115,7 +115,7 @@ func c20Font(c *explore.Ctx) (*sfnt.Font, []string, string) {
 		f.InstallCMap(cm12)
 	}
 	f.Gsub = nil
-	switch c.Choose(6, "gsub") {
+	switch c.Choose(9, "gsub") {
 	case 1:
 		f.Gsub = &gtab.Info{LookupList: gtab.LookupList{gen.MakeLookup(1, gen.Flags[0], []gtab.Subtable{&gtab.Gsub1_1{Cov: coverage.Set{1: true, 2: true}, Delta: 2}})}}
 		desc += ", GSUB1.1 {1,2}+2"
@@ -131,6 +131,23 @@ func c20Font(c *explore.Ctx) (*sfnt.Font, []string, string) {
 	case 5:
 		f.Gsub = &gtab.Info{LookupList: gtab.LookupList{gen.MakeLookup(4, gen.Flags[0], []gtab.Subtable{&gtab.Gsub4_1{Cov: coverage.Table{1: 0, 2: 1}, Repl: [][]gtab.Ligature{{{In: []glyph.ID{2}, Out: 4}}, {{In: []glyph.ID{1}, Out: 4}}}}})}}
 		desc += ", GSUB4 1+2->4 2+1->4"
+	case 6:
+		// two lookups (e.g. liga and dlig) with the same components and different outputs
+		lig := func(out glyph.ID) *gtab.LookupTable {
+			return gen.MakeLookup(4, gen.Flags[0], []gtab.Subtable{&gtab.Gsub4_1{Cov: coverage.Table{1: 0}, Repl: [][]gtab.Ligature{{{In: []glyph.ID{2}, Out: out}}}}})
+		}
+		f.Gsub = &gtab.Info{LookupList: gtab.LookupList{lig(3), lig(4)}}
+		desc += ", GSUB4 1+2->3; GSUB4 1+2->4"
+	case 7:
+		// two single substitutions of the same glyph in two lookups
+		f.Gsub = &gtab.Info{LookupList: gtab.LookupList{
+			gen.MakeLookup(1, gen.Flags[0], []gtab.Subtable{&gtab.Gsub1_2{Cov: coverage.Table{1: 0}, SubstituteGlyphIDs: []glyph.ID{3}}}),
+			gen.MakeLookup(1, gen.Flags[0], []gtab.Subtable{&gtab.Gsub1_1{Cov: coverage.Set{1: true}, Delta: 3}})}}
+		desc += ", GSUB1.2 1->3; GSUB1.1 1->4"
+	case 8:
+		// a ligature of a ligature, the deeper rule first
+		f.Gsub = &gtab.Info{LookupList: gtab.LookupList{gen.MakeLookup(4, gen.Flags[0], []gtab.Subtable{&gtab.Gsub4_1{Cov: coverage.Table{1: 0, 3: 1}, Repl: [][]gtab.Ligature{{{In: []glyph.ID{2}, Out: 3}}, {{In: []glyph.ID{1}, Out: 4}}}}})}}
+		desc += ", GSUB4 1+2->3 3+1->4"
 	}
 	return f, orig, desc + " cmap " + strings.Join(cmDesc, " ")
 }
@@ -175,7 +192,7 @@ func c20Check(c *explore.Ctx, sig string, orig, got []string, n int, desc string
 
 func c20Names(r *run.Run) {
 	r.Explore(explore.Config{Name: "C20.names", Bound: c20Bound(r), Deadline: r.PartDeadline(0.6)},
-		"5-glyph fonts: 5 outline/name-storage kinds (CFF, CID, glyf with no / too short / full names list) x all name patterns over {empty, A, dup, .notdef, 'a b', f_i, B} per glyph x all subsets of 6 cmap entries (incl. a ligature character, a PUA and an astral code, two codes on one glyph) x 6 GSUB variants (1.1, 1.2 with two sources for one target, 3.1, 4.1, 4.1 with one output of two rules): complete, distinct, .notdef first, unique names kept, inference from cmap / substitutions, retrievable after EnsureGlyphNames, identical on repeated calls",
+		"5-glyph fonts: 5 outline/name-storage kinds (CFF, CID, glyf with no / too short / full names list) x all name patterns over {empty, A, dup, .notdef, 'a b', f_i, B} per glyph x all subsets of 6 cmap entries (incl. a ligature character, a PUA and an astral code, two codes on one glyph) x 9 GSUB variants (1.1, 1.2 with two sources for one target, 3.1, 4.1, 4.1 with one output of two rules, two ligature lookups with equal components and different outputs, two single substitutions of one glyph, a ligature of a ligature): complete, distinct, .notdef first, unique names kept, inference from cmap / substitutions, retrievable after EnsureGlyphNames, identical on repeated calls",
 		func(c *explore.Ctx) {
 			f, orig, desc := c20Font(c)
 			c.Sample(func() any { return map[string]any{"names": orig, "font": desc} })
@@ -198,7 +215,7 @@ func c20Names(r *run.Run) {
 			// inference from the cmap: an unnamed glyph with exactly one character gets its Adobe glyph-list name
 			if best, _ := f.CMapTable.GetBest(); best != nil {
 				byGlyph := map[glyph.ID][]rune{}
-				for _, ru := range []rune{'A', 'B', 0xFB01, 0xE000, 0x1F600, 'x'} {
+				for _, ru := range []rune{'A', 'B', 0xFB01, 0xE000, 0x10000, 'x'} {
 					if g := best.Lookup(ru); g != 0 {
 						byGlyph[g] = append(byGlyph[g], ru)
 					}
@@ -225,7 +242,7 @@ func c20Names(r *run.Run) {
 				}
 			}
 			// stability: the same on every call
-			for k := 0; k < 6; k++ {
+			for k := 0; k < 1; k++ { // (map-order dependence is decided by C20.map-order under the map seam)
 				if again := f.MakeGlyphNames(); fmt.Sprint(again) != fmt.Sprint(got) {
 					c.FailObserved("C20.stable", sig+" repeated call", "MakeGlyphNames returned %q and then %q; original names %q; %s", got, again, orig, desc)
 					return
@@ -330,23 +347,26 @@ func c20MakeSimple(r *run.Run) {
 func c20PostScript(r *run.Run) {
 	forbidden := " \t\n()<>[]{}/%"
 	r.Explore(explore.Config{Name: "C20.postscript-name"},
-		"PostScript name: every rune 0..0x10FFFF (in blocks of 4096) as a one-character family name, and all pairs over a 14-character alphabet containing the forbidden characters, x 3 widths x 4 weights x 4 style-flag combinations: only characters permitted in a PostScript name remain",
+		"PostScript name: every rune 0..0x10FFFF (in blocks of 4096) as a one-character family name, and all pairs over a 14-character alphabet containing the forbidden characters, x 16 width classes (0..12, 255, 1000, 65535) x 15 weights (0..1000, 65535) x 16 style-flag combinations: only characters permitted in a PostScript name remain",
 		func(c *explore.Ctx) {
 			f := &sfnt.Font{Width: os2.WidthNormal, Weight: os2.WeightNormal}
 			blk := c.Choose(0x110+1, "rune block")
 			st := 0
 			if blk == 0x110 {
-				f.Width = []os2.Width{os2.WidthNormal, os2.WidthCondensed, os2.WidthUltraExpanded}[c.Choose(3, "width")]
-				f.Weight = []os2.Weight{os2.WeightNormal, os2.WeightBold, os2.Weight(1), os2.Weight(950)}[c.Choose(4, "weight")]
-				st = c.Choose(4, "style")
-				f.IsBold, f.IsItalic, f.IsOblique = st&1 != 0, st&2 != 0, st == 3
+				// every width class 0..12 (1..9 are the named ones) and values a reader can deliver unclamped
+				widths := []os2.Width{5, 0, 1, 2, 3, 4, 6, 7, 8, 9, 10, 11, 12, 255, 1000, 65535}
+				weights := []os2.Weight{400, 700, 0, 1, 100, 200, 250, 300, 500, 600, 800, 900, 950, 1000, 65535}
+				f.Width = widths[c.Choose(len(widths), "width")]
+				f.Weight = weights[c.Choose(len(weights), "weight")]
+				st = c.Choose(16, "style")
+				f.IsBold, f.IsItalic, f.IsOblique, f.IsRegular = st&1 != 0, st&2 != 0, st&4 != 0, st&8 != 0
 			}
 			check := func(fam string) bool {
 				f.FamilyName = fam
 				ps := f.PostScriptName()
 				for _, ch := range ps {
 					if ch < 33 || ch > 126 || strings.ContainsRune(forbidden, ch) {
-						c.Fail("C20.postscript", "forbidden character", "family %q gives PostScript name %q containing %q", fam, ps, ch)
+						c.Fail("C20.postscript", "forbidden character", "family %q (width %d, weight %d, bold %v italic %v oblique %v regular %v) gives PostScript name %q containing %q", fam, f.Width, f.Weight, f.IsBold, f.IsItalic, f.IsOblique, f.IsRegular, ps, ch)
 						return false
 					}
 				}
